@@ -10,7 +10,7 @@ from __future__ import annotations
 import itertools
 
 from vf import core, docspace, readers
-from vf.blockspace import BLOCKS, BlockSpace
+from vf.blockspace import BLOCKS, BlockSpace, UnusualSpace
 from vf.explorer import Outcome, Space
 from vf.paraspace import ParaSpace
 
@@ -206,5 +206,7 @@ def spaces(tier):
     para0.class_rep = para0_rep
     blk = BlockSpace("C02", "blocks", oracle, docspace.contexts(1, ("ul", "bq"), (None,)), 2, (88, 3) if q else (88, 3, 0),
                      modes=(False, True) if not q else (False,), full_upto=2, floors={"pass1-changed": 1000})
-    return [para, para0, blk, Plain(2 if q else 3, [0, 1, 4, 8, 20] if q else [0, 1, 3, 4, 8, 12, 20, 88]),
+    unusual = UnusualSpace("C02", "blocks-unusual", oracle, docspace.contexts(1, ("ul", "bq"), (None,)), (88, 3) if q else (88, 3, 0),
+                           modes=(False, True) if not q else (False,), floors={"pass1-changed": 1000})
+    return [para, para0, blk, unusual, Plain(2 if q else 3, [0, 1, 4, 8, 20] if q else [0, 1, 3, 4, 8, 12, 20, 88]),
             TypoFn(8 if q else 9)]
